@@ -439,8 +439,10 @@ var checkC12Obj = register("C12/object", func(c objCase) string {
 			if c.QueriedFirst { // the valid object is queried completely before the field is reset
 				snapViews(views3(b, t, e, lv))
 			}
+			// the field is reset through the top-level object (promoted fields), never through
+			// an accessor result taken earlier
 			var target any
-			switch spec.Level(c.ResetLevel) {
+			switch lv {
 			case spec.Base:
 				target = b
 			case spec.Temporal:
@@ -451,6 +453,8 @@ var checkC12Obj = register("C12/object", func(c objCase) string {
 			if target == nil || !resetField(target, c.Reset) {
 				return ""
 			}
+			o = o.refreshed()
+			b, t, e = o.B, o.T, o.E
 			what += fmt.Sprintf(" %q with %s reset", c.Vector, c.Reset)
 		default:
 			return ""
@@ -507,7 +511,7 @@ var checkC12Obj = register("C12/object", func(c objCase) string {
 			snapViews(views2(b, t, e, lv))
 		}
 		var target any
-		switch spec.Level(c.ResetLevel) {
+		switch lv {
 		case spec.Base:
 			target = b
 		case spec.Temporal:
@@ -518,6 +522,8 @@ var checkC12Obj = register("C12/object", func(c objCase) string {
 		if target == nil || !resetField(target, c.Reset) {
 			return ""
 		}
+		o = o.refreshed()
+		b, t, e = o.B, o.T, o.E
 		what += fmt.Sprintf(" %q with %s reset", c.Vector, c.Reset)
 	default:
 		return ""
